@@ -45,7 +45,7 @@ pub async fn run_crash(cfg: RunCfg) -> RunResult {
         }
         let out = guarded(async {
             r.do_op(&op).await;
-            let k = crate::e1::op_sig_kind(&op, &r.st);
+            let k = format!("{}{}", crate::e1::op_sig_kind(&op, &r.st), r.history_tags(&op, &[]));
             r.o_scan(crate::e1::prop_for_op(&op), &k).await;
         })
         .await;
